@@ -1114,7 +1114,7 @@ class Exec:
         if isinstance(rt, dsl.Opt):
             raise Unsupported("Opt result type in a callee contract")
         if isinstance(rt, dsl.FunResT):
-            arg = st.get(env[rt.arg])
+            arg = st.get(env[rt.arg]) if rt.arg in env else st.get(self.spec_value(rt.arg, dict(env), st))
             if not isinstance(arg, Vec):
                 raise Unsupported("opaque function result of a non-vector argument")
             return st.alloc(OpaqueVecApp(rt.name, arg))
